@@ -137,6 +137,20 @@ def _solve_one(idx_budget):
     h = vc_hash(txt)
     res = {'idx': idx, 'hash': h, 'status': 'unknown', 'backend': None, 'time': 0.0, 'cex': None,
            'reason': ''}
+    # 1st attempt: pure E-matching (no model-based quantifier instantiation): proofs of valid VCs
+    # over quantified invariants are found this way or not at all, and it fails fast
+    s1 = z3.Solver()
+    s1.set('timeout', min(budget_ms, 6000))
+    s1.set('smt.mbqi', False)
+    s1.set('smt.auto_config', False)
+    s1.add(s0.assertions())
+    try:
+        r1 = s1.check()
+    except z3.Z3Exception:  # pragma: no cover
+        r1 = z3.unknown
+    if r1 == z3.unsat:
+        res.update(status='unsat', backend='z3(ematching)', time=time.time() - t0)
+        return res
     s = z3.Solver()
     s.set('timeout', budget_ms)
     s.add(s0.assertions())
@@ -167,16 +181,6 @@ def _solve_one(idx_budget):
         res.update(status='sat', backend='z3', cex=cex)
         return res
     res['reason'] = 'z3: ' + s.reason_unknown()
-    # z3 retry with a different configuration (no MBQI: pure E-matching often decides faster)
-    s2 = z3.Solver()
-    s2.set('timeout', budget_ms)
-    s2.set('smt.mbqi', False)
-    s2.set('smt.random_seed', 7)
-    s2.add(s0.assertions())
-    r2 = s2.check()
-    if r2 == z3.unsat:
-        res.update(status='unsat', backend='z3(ematching)', time=time.time() - t0)
-        return res
     if use_cvc5:
         os.makedirs(WORK, exist_ok=True)
         fd, path = tempfile.mkstemp(suffix='.smt2', dir=WORK)
@@ -214,3 +218,53 @@ def solve_all(obligations, budget_ms=20000, procs=None, use_cvc5=True):
         return [_solve_one(t) for t in tasks]
     with ctx.Pool(min(procs, len(obligations))) as pool:
         return pool.map(_solve_one, tasks, chunksize=1)
+
+
+# ------------------------------------------------------------------------------------------------
+# finite-instantiation query (refutation only): every quantifier over Int is expanded over a small
+# domain and the named Int inputs are restricted to it.  A model found this way is only a
+# candidate: it is always replayed natively before anything is reported.
+# ------------------------------------------------------------------------------------------------
+def expand_quantifiers(f, dom):
+    cache = {}
+
+    def go(t):
+        i = t.get_id()
+        if i in cache:
+            return cache[i][1]
+        if z3.is_quantifier(t):
+            n = t.num_vars()
+            body = t.body()
+            sorts = [t.var_sort(k) for k in range(n)]
+            if all(s == z3.IntSort() for s in sorts):
+                import itertools
+                insts = []
+                for combo in itertools.product(dom, repeat=n):
+                    # de Bruijn: var 0 is the LAST bound variable
+                    subst = [z3.IntVal(v) for v in reversed(combo)]
+                    insts.append(go(z3.substitute_vars(body, *subst)))
+                r = z3.And(*insts) if t.is_forall() else z3.Or(*insts)
+            else:
+                r = t
+        elif z3.is_app(t) and t.num_args() > 0:
+            r = t.decl()(*[go(c) for c in t.children()])
+        else:
+            r = t
+        cache[i] = (t, r)  # keep t alive: z3 reuses ids of collected terms
+        return r
+
+    return go(f)
+
+
+def finite_refute(ob, dom=(0, 1, 2, 3), timeout_ms=20000, extra=()):
+    s = z3.Solver()
+    s.set('timeout', timeout_ms)
+    for h in ob.hyps:
+        s.add(expand_quantifiers(h, dom))
+    s.add(expand_quantifiers(z3.Not(ob.goal), dom))
+    for e in extra:
+        s.add(e)
+    r = s.check()
+    if r == z3.sat:
+        return s.model()
+    return None
